@@ -133,7 +133,7 @@ class HasComlog:
 
     def earlyInit(self):
         super().earlyInit()
-        if self.comlog and generalConfig.initialized and generalConfig.comlog:
+        if self.comlog and generalConfig.initialized and generalConfig.getbool('comlog'):
             self._comLog = mlzlog.Logger(f'COMLOG.{self.name}')
             self._comLog.handlers[:] = []
             directory = join(logger.logdir, logger.rootname, 'comlog', self.secNode.name)
